@@ -208,6 +208,7 @@ func (c *PlanCache) Reset() {
 	defer c.mu.Unlock()
 	c.entries = make(map[string]*list.Element, c.opts.MaxEntries)
 	c.order = list.New()
+	verifEvent("cache.reset", c)
 }
 
 func (c *PlanCache) shouldCache(querySize int) bool {
@@ -220,6 +221,7 @@ func (c *PlanCache) lookup(schema *Schema, key string) (PlanResult, bool) {
 	el, ok := c.entries[key]
 	if !ok {
 		c.misses.Add(1)
+		verifEvent("cache.lookup", c, key, schema, "miss", c.order.Len())
 		return PlanResult{}, false
 	}
 	item := el.Value.(*planCacheItem)
@@ -227,10 +229,12 @@ func (c *PlanCache) lookup(schema *Schema, key string) (PlanResult, bool) {
 		c.order.Remove(el)
 		delete(c.entries, key)
 		c.misses.Add(1)
+		verifEvent("cache.lookup", c, key, schema, "stale", c.order.Len())
 		return PlanResult{}, false
 	}
 	c.order.MoveToFront(el)
 	c.hits.Add(1)
+	verifEvent("cache.lookup", c, key, schema, "hit", c.order.Len())
 	return item.e.result, true
 }
 
@@ -242,6 +246,7 @@ func (c *PlanCache) store(schema *Schema, key string, pr PlanResult) {
 		item.e.schema = schema
 		item.e.result = pr
 		c.order.MoveToFront(el)
+		verifEvent("cache.store", c, key, schema, "overwrite", c.order.Len())
 		return
 	}
 	item := &planCacheItem{key: key, e: &planCacheEntry{schema: schema, result: pr}}
@@ -255,7 +260,9 @@ func (c *PlanCache) store(schema *Schema, key string, pr PlanResult) {
 		oi := oldest.Value.(*planCacheItem)
 		c.order.Remove(oldest)
 		delete(c.entries, oi.key)
+		verifEvent("cache.evict", c, oi.key)
 	}
+	verifEvent("cache.store", c, key, schema, "insert", c.order.Len())
 }
 
 // planAndValidate is the cache-miss path: parse, validate, plan,
